@@ -172,8 +172,19 @@ func legacyRoundTrip(r *ev.Run, c *ev.Case, a *message.Attributes, direct bool) 
 
 // jsonNotLegacy: any text that decodes as a JSON attribute object must get the
 // JSON interpretation (or the required-field error), never the legacy one.
+var ring *ev.Ring
+
+func unmarshalDigest(text string) string {
+	a, err := message.Unmarshal(text)
+	if err != nil {
+		return "error"
+	}
+	return js(a)
+}
+
 func jsonNotLegacy(r *ev.Run, c *ev.Case, text, shape string) {
 	r.Eval(1)
+	defer func() { ring.Add(r, c, func() string { return unmarshalDigest(text) }, unmarshalDigest(text), text) }()
 	var got *message.Attributes
 	var err error
 	if r.Guard(c, "Unmarshal", rec{Text: text, What: shape}, func() { got, err = message.Unmarshal(text) }) {
@@ -326,6 +337,7 @@ func main() {
 	ev.MainIsolated("C15", "exploration", 40*time.Minute, func(r *ev.Run) {
 		r.Rule("seeded attribute sets (all boolean combinations, algorithm numbers -1..20, touchless-sudo nil/empty/partial/full, nested extension maps of JSON-native values incl. strings that look like legacy tokens, UTF-8 strings) round-tripped through Marshal/Unmarshal in the JSON format (ifVer>=7) and the legacy format (ifVer<7, values free of whitespace and '@', also through MarshalLegacy/UnmarshalLegacy directly); JSON objects with missing required fields and embedded legacy tokens; JSON scalars; legacy texts assembled from tokens with repeats, empty values, '=' in values and stray separators. distinct_nontrivial = distinct wire texts that completed a round trip or reached the JSON-object decision")
 		r.Assume("ext values are JSON-native (numbers are float64)", "strings are valid UTF-8", "reference legacy tokenizer: split on space, trim, first '=', last key wins")
+		ring = ev.NewRing("message.Unmarshal", r.Seed, 41)
 		n := r.Pick(6000, 160000)
 		for i := 0; i < n; i++ {
 			if c := r.Case("json", i); c != nil {
